@@ -1,1 +1,485 @@
-/-! Property theorems for C16 (none yet). -/
+import MirVerif.Lemmas.DupRestoreMain
+/-!
+# C16 — code generation leaves the MIR program intact and can be repeated
+
+Model: `MirVerif/Model/DupRestore.lean` (`_MIR_duplicate_func_insns`, `_MIR_restore_func_insns`,
+`new_func_reg`, `_MIR_new_temp_reg`, entry/exit protocol of `generate_func_code`).
+
+Proved, for every well-formed function (`WF`, i.e. what MIR_finish_func/MIR_load_module establish
+and the `mir_assert`s of duplicate state) and every sequence of generator edits confined to the
+working copy (`Edit.legal`):
+
+* `dup_closed`       after duplicate every label operand and every lref of the working copy points
+                     into the working copy, whose instructions are all freshly allocated;
+* `dup_frame`        duplicate leaves every previously allocated instruction unchanged;
+* `dup_iso`          the working copy prints like the original;
+* `restore_identity` duplicate; any legal edits; restore gives back the same instruction list, the
+                     same instructions, lrefs, vars and register tables, hence the same print;
+* `restore_wf`       … and the function is again well-formed (a later duplicate is again covered);
+* `gen_idempotent_addr`, `gen_history`  `MIR_gen` on a function whose `machine_code` is set returns
+                     `item->addr`, publishes no code and does not touch the function; any history of
+                     `MIR_gen` calls returns the same address every time, publishes code once and
+                     leaves the print unchanged.
+
+Not proved here (checked by the correspondence in checks/c16.py): that the optimizer's real edits
+are legal in the sense of `Edit.legal` and that the model functions agree with the C functions.
+-/
+namespace MirVerif.DupRestore
+
+/-! ### duplicate -/
+
+/-- **dup_frame**: `_MIR_duplicate_func_insns` does not change any instruction that existed
+before the call (in particular the pristine list and every other function's instructions). -/
+theorem dup_frame (s : State) (hwf : WF s) :
+    ∀ i, i < s.next → (duplicate s).heap i = s.heap i :=
+  (dup_spec s hwf).2.2.1
+
+/-- **dup_closed**: after `_MIR_duplicate_func_insns` the working copy consists of freshly
+allocated instructions only, every label operand of the working copy points to a label of the
+working copy, and so does every lref of the function; `original_insns` is the old list. -/
+theorem dup_closed (s : State) (hwf : WF s) :
+    (duplicate s).func.originalInsns = s.func.insns ∧
+    (∀ i ∈ (duplicate s).func.insns, s.next ≤ i) ∧
+    (∀ i ∈ (duplicate s).func.insns, ∀ insn, (duplicate s).heap i = some insn →
+      ∀ (n : Nat) (p : Option Nat), insn.ops[n]? = some (Op.lab p) →
+        PtrOK (duplicate s).heap (duplicate s).func.insns p) ∧
+    (∀ r ∈ (duplicate s).func.lrefs,
+      PtrOK (duplicate s).heap (duplicate s).func.insns r.label ∧
+      (r.label2 = none ∨ PtrOK (duplicate s).heap (duplicate s).func.insns r.label2)) := by
+  obtain ⟨_, hfunc, _, hcopy⟩ := dup_spec s hwf
+  have hins : (duplicate s).func.insns = List.range' s.next s.func.insns.length := by
+    rw [hfunc]
+  -- a remapped pointer to a label of the old list is a label of the new list
+  have hptr : ∀ p, PtrOK s.heap s.func.insns p →
+      PtrOK (duplicate s).heap (duplicate s).func.insns (remapPtr s.func.insns s.next p) := by
+    rintro p ⟨t, rfl, ht, insnT, hT, hkind⟩
+    refine ⟨s.next + s.func.insns.idxOf t, rfl, ?_, ?_⟩
+    · rw [hins]
+      exact List.mem_range'.mpr ⟨_, List.idxOf_lt_length_of_mem ht, by simp⟩
+    · exact ⟨_, hcopy _ t insnT (getElem?_idxOf_of_mem ht) hT, hkind⟩
+  refine ⟨by rw [hfunc], ?_, ?_, ?_⟩
+  · intro i hi
+    rw [hins] at hi
+    obtain ⟨k, _, rfl⟩ := List.mem_range'.mp hi
+    omega
+  · intro i hi insn hinsn n p hop
+    rw [hins] at hi
+    obtain ⟨k, hk, rfl⟩ := List.mem_range'.mp hi
+    simp only [Nat.one_mul] at hinsn
+    have hko : s.func.insns[k]? = some s.func.insns[k] := List.getElem?_eq_getElem hk
+    have hmem : s.func.insns[k] ∈ s.func.insns := List.getElem_mem hk
+    obtain ⟨insn0, h0⟩ := Option.isSome_iff_exists.mp (hwf.alloc _ hmem).2
+    rw [hcopy k _ insn0 hko h0] at hinsn
+    cases hinsn
+    simp only [List.getElem?_map] at hop
+    cases hop0 : insn0.ops[n]? with
+    | none => rw [hop0] at hop; cases hop
+    | some op0 =>
+      rw [hop0] at hop
+      simp only [Option.map_some, Option.some.injEq] at hop
+      cases op0 with
+      | lab p0 =>
+        simp only [remapOp, Op.lab.injEq] at hop
+        subst hop
+        exact hptr p0 (hwf.ops _ hmem insn0 h0 n p0 hop0).2
+      | reg _ => cases hop
+      | mem _ _ _ _ => cases hop
+      | other _ => cases hop
+  · intro r hr
+    rw [hfunc] at hr
+    obtain ⟨r0, hr0, rfl⟩ := List.mem_map.mp hr
+    obtain ⟨h1, h2, _, _⟩ := hwf.lrefs r0 hr0
+    refine ⟨hptr _ h1, ?_⟩
+    rcases h2 with h2 | h2
+    · left; simp [remapLref, remapPtr, h2]
+    · right; exact hptr _ h2
+
+/-- **dup_iso**: the working copy prints like the original (instructions, vars, lref items). -/
+theorem dup_iso (s : State) (hwf : WF s) : print (duplicate s) = print s := by
+  obtain ⟨_, hfunc, _, hcopy⟩ := dup_spec s hwf
+  obtain ⟨tv, td, tn, tr, _⟩ := dup_tables s hwf
+  obtain ⟨hln, hlr⟩ := lookups_of_tables td tn tr
+  have hins : (duplicate s).func.insns = List.range' s.next s.func.insns.length := by rw [hfunc]
+  have hlrefs : (duplicate s).func.lrefs = s.func.lrefs.map (remapLref s.func.insns s.next) := by
+    rw [hfunc]
+  simp only [print, Printed.mk.injEq]
+  refine ⟨?_, ?_, ?_⟩
+  · rw [tv]
+    apply List.map_congr_left
+    intro v _
+    simp [printVar, hln]
+  · rw [hins]
+    apply List.ext_getElem?
+    intro k
+    simp only [List.getElem?_map]
+    by_cases hk : k < s.func.insns.length
+    · rw [List.getElem?_range' hk, List.getElem?_eq_getElem hk]
+      simp only [Option.map_some, Nat.one_mul]
+      have hmem : s.func.insns[k] ∈ s.func.insns := List.getElem_mem hk
+      obtain ⟨insn0, h0⟩ := Option.isSome_iff_exists.mp (hwf.alloc _ hmem).2
+      rw [hcopy k _ insn0 (List.getElem?_eq_getElem hk) h0, h0]
+      simp only
+      congr 1
+      unfold printInsn
+      simp only
+      by_cases hl : insn0.kind = .label
+      · rw [if_pos hl, if_pos hl]
+        have hno : ∀ (n : Nat) (p : Option Nat), insn0.ops[n]? ≠ some (Op.lab p) :=
+          no_lab_of_not_branchLike (hwf.ops _ hmem insn0 h0)
+            (by rw [branchLike_label_false hl]; simp)
+        simp [labelNum, map_remapOp_nolab hno]
+      · rw [if_neg hl, if_neg hl]
+        congr 1
+        apply List.ext_getElem?
+        intro n
+        simp only [List.getElem?_map]
+        cases hop : insn0.ops[n]? with
+        | none => rfl
+        | some op =>
+          simp only [Option.map_some]
+          congr 1
+          cases op with
+          | lab p =>
+            simp only [remapOp, printOp]
+            exact printLabelRef_remap s hwf p (hwf.ops _ hmem insn0 h0 n p hop).2
+          | reg r => simp [remapOp, printOp, regName, hlr]
+          | mem ty b i rest => simp [remapOp, printOp, regName, hlr]
+          | other t => rfl
+    · have hk' : s.func.insns.length ≤ k := Nat.le_of_not_lt hk
+      rw [List.getElem?_eq_none (by simpa using hk'), List.getElem?_eq_none hk']
+      rfl
+  · rw [hlrefs]
+    simp only [List.map_map]
+    apply List.map_congr_left
+    intro r hr
+    obtain ⟨h1, h2, _, _⟩ := hwf.lrefs r hr
+    simp only [Function.comp, remapLref]
+    rw [printLabelRef_remap s hwf _ h1]
+    rcases h2 with h2 | h2
+    · simp [h2, remapPtr]
+    · rw [printLabelRef_remap s hwf _ h2]
+      obtain ⟨t, ht, _⟩ := h2
+      simp [ht, remapPtr]
+
+/-! ### duplicate ; edits ; restore -/
+
+/-- **restore_identity**: for every well-formed function and every sequence of generator edits
+confined to the working copy, `_MIR_restore_func_insns` after `_MIR_duplicate_func_insns` gives
+back the same instruction list (same pointers, same contents), the same lrefs, the same `vars`
+and register tables — so `MIR_output_item` prints the same text and `MIR_reg`/`MIR_reg_name`
+answer as before. -/
+theorem restore_identity (s : State) (es : List Edit) (hwf : WF s)
+    (hleg : ∀ e ∈ es, e.legal s.next) :
+    let s3 := restore (mutateCopy (duplicate s) es)
+    print s3 = print s ∧
+    s3.func.insns = s.func.insns ∧ s3.func.originalInsns = [] ∧
+    s3.func.lrefs = s.func.lrefs ∧ s3.func.vars = s.func.vars ∧
+    s3.func.name2rdn = s.func.name2rdn ∧ s3.func.reg2rdn = s.func.reg2rdn ∧
+    (∀ n, lookupName s3.func n = lookupName s.func n) ∧
+    (∀ r, lookupReg s3.func r = lookupReg s.func r) ∧
+    (∀ i, i < s.next → s3.heap i = s.heap i) := by
+  intro s3
+  obtain ⟨hheap, _, extra, ltn, hfunc⟩ := restore_core s es hwf hleg
+  have hf : s3.func = { s.func with originalVarsNum := s.func.vars.length,
+                                    regDescs := s.func.regDescs ++ extra, lastTempNum := ltn } :=
+    hfunc
+  have hag := lookup_agree (b := s.func) (g := s3.func) (extra := extra)
+    (by rw [hf]) (by rw [hf]) (by rw [hf]) hwf.tabs
+  have horig : s3.func.originalInsns = [] := by rw [hf]; exact hwf.orig
+  refine ⟨?_, by rw [hf], horig, by rw [hf], by rw [hf], by rw [hf], by rw [hf],
+    hag.2.2.1, hag.2.2.2, hheap⟩
+  -- the print
+  have hlt : ∀ t ∈ s.func.insns, s3.heap t = s.heap t :=
+    fun t ht => hheap t (hwf.alloc t ht).1
+  simp only [print, Printed.mk.injEq]
+  refine ⟨?_, ?_, ?_⟩
+  · rw [show s3.func.vars = s.func.vars by rw [hf]]
+    apply List.map_congr_left
+    intro v _
+    simp [printVar, hag.2.2.1]
+  · rw [show s3.func.insns = s.func.insns by rw [hf]]
+    apply List.map_congr_left
+    intro i hi
+    rw [hlt i hi]
+    cases h0 : s.heap i with
+    | none => rfl
+    | some insn =>
+      simp only
+      unfold printInsn
+      split
+      · rfl
+      · congr 1
+        apply List.map_congr_left
+        intro op hop
+        apply printOp_agree op _ hag.2.2.2
+        intro t ht
+        subst ht
+        obtain ⟨n, hn⟩ := List.mem_iff_getElem?.mp hop
+        obtain ⟨_, t', ht', hmem, _⟩ := hwf.ops i hi insn h0 n (some t) hn
+        cases ht'
+        exact hlt t hmem
+  · rw [show s3.func.lrefs = s.func.lrefs by rw [hf]]
+    apply List.map_congr_left
+    intro r hr
+    obtain ⟨⟨t, ht, hmem, _⟩, h2, _, _⟩ := hwf.lrefs r hr
+    rw [printLabelRef_agree r.label (fun t' ht' => hlt t' (by
+      have e := ht.symm.trans ht'; cases e; exact hmem))]
+    rcases h2 with h2 | ⟨t2, ht2, hmem2, _⟩
+    · simp [h2]
+    · rw [printLabelRef_agree r.label2 (fun t' ht' => hlt t' (by
+        have e := ht2.symm.trans ht'; cases e; exact hmem2))]
+
+/-- **restore_wf**: after duplicate; legal edits; restore the function is well-formed again, so a
+further duplicate/restore cycle is covered by the same theorems. -/
+theorem restore_wf (s : State) (es : List Edit) (hwf : WF s)
+    (hleg : ∀ e ∈ es, e.legal s.next) : WF (restore (mutateCopy (duplicate s) es)) := by
+  obtain ⟨hheap, hnext, extra, ltn, hfunc⟩ := restore_core s es hwf hleg
+  have hins : (restore (mutateCopy (duplicate s) es)).func.insns = s.func.insns := by rw [hfunc]
+  have hlt : ∀ t ∈ s.func.insns, (restore (mutateCopy (duplicate s) es)).heap t = s.heap t :=
+    fun t ht => hheap t (hwf.alloc t ht).1
+  have hlab : ∀ t ∈ s.func.insns, isLabelAt s.heap t →
+      isLabelAt (restore (mutateCopy (duplicate s) es)).heap t := by
+    intro t ht ⟨insn, h1, h2⟩
+    exact ⟨insn, by rw [hlt t ht]; exact h1, h2⟩
+  have hptr : ∀ p, PtrOK s.heap s.func.insns p →
+      PtrOK (restore (mutateCopy (duplicate s) es)).heap
+        (restore (mutateCopy (duplicate s) es)).func.insns p := by
+    rintro p ⟨t, rfl, ht, hl⟩
+    exact ⟨t, rfl, by rw [hins]; exact ht, hlab t ht hl⟩
+  have hget : ∀ r, r < s.func.regDescs.length →
+      (s.func.regDescs ++ extra)[r]? = s.func.regDescs[r]? :=
+    fun r hr => List.getElem?_append_left hr
+  constructor
+  · rw [hins]; exact hwf.nodup
+  · intro i hi
+    rw [hins] at hi
+    have := hwf.alloc i hi
+    rw [hlt i hi]
+    exact ⟨by omega, this.2⟩
+  · intro i hi insn h0 hk
+    rw [hins] at hi
+    rw [hlt i hi] at h0
+    exact hwf.labData i hi insn h0 hk
+  · intro i hi insn h0 n p hop
+    rw [hins] at hi
+    rw [hlt i hi] at h0
+    obtain ⟨h1, h2⟩ := hwf.ops i hi insn h0 n p hop
+    exact ⟨h1, hptr p h2⟩
+  · intro r hr
+    rw [hfunc] at hr
+    obtain ⟨h1, h2, h3, h4⟩ := hwf.lrefs r hr
+    exact ⟨hptr _ h1, h2.imp id (hptr _), h3, h4⟩
+  · rw [hfunc]; exact hwf.orig
+  · have hrd : (restore (mutateCopy (duplicate s) es)).func.regDescs = s.func.regDescs ++ extra := by
+      rw [hfunc]
+    have hn2 : (restore (mutateCopy (duplicate s) es)).func.name2rdn = s.func.name2rdn := by
+      rw [hfunc]
+    have hr2 : (restore (mutateCopy (duplicate s) es)).func.reg2rdn = s.func.reg2rdn := by
+      rw [hfunc]
+    constructor
+    · intro r hr
+      rw [hn2] at hr
+      have := hwf.tabs.n2rLt r hr
+      rw [hrd, List.length_append]; omega
+    · intro r hr
+      rw [hr2] at hr
+      have := hwf.tabs.r2rLt r hr
+      rw [hrd, List.length_append]; omega
+    · rw [hn2]
+      have : List.map (rdNameAt (restore (mutateCopy (duplicate s) es)).func) s.func.name2rdn =
+          List.map (rdNameAt s.func) s.func.name2rdn := by
+        apply List.map_congr_left
+        intro r hr
+        simp only [rdNameAt]
+        rw [hrd, hget r (hwf.tabs.n2rLt r hr)]
+      rw [this]; exact hwf.tabs.namesNodup
+    · rw [hr2]
+      have : List.map (rdRegAt (restore (mutateCopy (duplicate s) es)).func) s.func.reg2rdn =
+          List.map (rdRegAt s.func) s.func.reg2rdn := by
+        apply List.map_congr_left
+        intro r hr
+        simp only [rdRegAt]
+        rw [hrd, hget r (hwf.tabs.r2rLt r hr)]
+      rw [this]; exact hwf.tabs.regsNodup
+  · intro r hr d hd
+    have hrd : (restore (mutateCopy (duplicate s) es)).func.regDescs = s.func.regDescs ++ extra := by
+      rw [hfunc]
+    have hr2 : (restore (mutateCopy (duplicate s) es)).func.reg2rdn = s.func.reg2rdn := by
+      rw [hfunc]
+    have hv : (restore (mutateCopy (duplicate s) es)).func.vars = s.func.vars := by rw [hfunc]
+    have hg : (restore (mutateCopy (duplicate s) es)).func.nglobals = s.func.nglobals := by
+      rw [hfunc]
+    rw [hr2] at hr
+    rw [hrd, hget r (hwf.tabs.r2rLt r hr)] at hd
+    rw [hv, hg]
+    exact hwf.regsLe r hr d hd
+
+/-! ### `MIR_gen` called repeatedly -/
+
+/-- **gen_idempotent_addr**: when `func->machine_code != NULL`, `MIR_gen` returns `item->addr`,
+does not duplicate/regenerate (the program state, `machine_code`, `call_addr` and the number of
+published code blocks are unchanged) and only re-points the thunk at `call_addr`. -/
+theorem gen_idempotent_addr (it : Item) (a : Nat) (h : it.machineCode = some a)
+    (edits : List Edit) (code : Nat) :
+    gen it edits code = ({ it with thunkTarget := it.callAddr }, it.addr) := by
+  unfold gen
+  rw [h]
+
+/-- **gen_history**: any history of `MIR_gen` calls on one function (whatever the optimizer does to
+the working copy, as long as it stays inside it): every call returns the same address
+`item->addr`; machine code is published exactly once (by the first call) and `machine_code` keeps
+the address published then; the function prints the same as before the first call. -/
+theorem gen_history (it : Item) (hwf : WF it.st) (hmc : it.machineCode = none) :
+    ∀ (calls : List (List Edit × Nat)), calls ≠ [] →
+      (∀ c ∈ calls, ∀ e ∈ c.1, e.legal it.st.next) →
+      (∀ r ∈ (genMany it calls).2, r = it.addr) ∧
+      (genMany it calls).1.published = it.published + 1 ∧
+      (genMany it calls).1.machineCode = calls.head?.map (·.2) ∧
+      (genMany it calls).1.addr = it.addr ∧
+      print (genMany it calls).1.st = print it.st := by
+  -- once generated, further calls change nothing but (idempotently) the thunk
+  have hrest : ∀ (calls : List (List Edit × Nat)) (j : Item), j.machineCode.isSome →
+      (∀ r ∈ (genMany j calls).2, r = j.addr) ∧
+      (genMany j calls).1.published = j.published ∧
+      (genMany j calls).1.machineCode = j.machineCode ∧
+      (genMany j calls).1.addr = j.addr ∧ (genMany j calls).1.st = j.st := by
+    intro calls
+    induction calls with
+    | nil => intro j _; simp [genMany]
+    | cons c rest ih =>
+      intro j hj
+      obtain ⟨a, ha⟩ := Option.isSome_iff_exists.mp hj
+      obtain ⟨es, code⟩ := c
+      simp only [genMany]
+      rw [gen_idempotent_addr j a ha]
+      obtain ⟨i1, i2, i3, i4, i5⟩ := ih { j with thunkTarget := j.callAddr } hj
+      exact ⟨by
+        intro r hr
+        rcases List.mem_cons.mp hr with rfl | hr
+        · rfl
+        · exact i1 r hr, i2, i3, i4, i5⟩
+  intro calls hne hleg
+  cases calls with
+  | nil => exact absurd rfl hne
+  | cons c rest =>
+    obtain ⟨es, code⟩ := c
+    simp only [genMany]
+    have hfirst : gen it es code =
+        ({ st := restore (mutateCopy (duplicate it.st) es), addr := it.addr,
+           machineCode := some code, callAddr := some code, thunkTarget := some code,
+           published := it.published + 1 }, it.addr) := by
+      unfold gen; rw [hmc]
+    rw [hfirst]
+    obtain ⟨i1, i2, i3, i4, i5⟩ := hrest rest
+      { st := restore (mutateCopy (duplicate it.st) es), addr := it.addr,
+        machineCode := some code, callAddr := some code, thunkTarget := some code,
+        published := it.published + 1 } rfl
+    refine ⟨?_, i2, by simpa using i3, i4, ?_⟩
+    · intro r hr
+      rcases List.mem_cons.mp hr with rfl | hr
+      · rfl
+      · exact i1 r hr
+    · rw [i5]
+      exact (restore_identity it.st es hwf (hleg (es, code) (by simp))).1
+
+/-! ### non-vacuity: a concrete function with a loop, a switch and an lref -/
+
+namespace Example
+
+/-- `L1: add r1 ; bt L1, r1 ; switch r1, L1, L2 ; L2: ret` with `a:i64` and one lref to `L2 - L1` -/
+def heap0 : Heap := ⟨fun i =>
+  match i with
+  | 0 => some ⟨.label, "label", [.other "1"], none⟩
+  | 1 => some ⟨.other, "add", [.reg 1, .reg 1, .other "1"], none⟩
+  | 2 => some ⟨.branch, "bt", [.lab (some 0), .reg 1], none⟩
+  | 3 => some ⟨.switch, "switch", [.reg 1, .lab (some 0), .lab (some 4)], none⟩
+  | 4 => some ⟨.label, "label", [.other "2"], none⟩
+  | 5 => some ⟨.other, "ret", [.reg 1], none⟩
+  | _ => none⟩
+
+def func0 : Func :=
+  { insns := [0, 1, 2, 3, 4, 5], originalInsns := [], vars := [⟨"i64", "a"⟩], originalVarsNum := 0,
+    nglobals := 0, regDescs := [⟨"i64", 0, "", ""⟩, ⟨"i64", 1, "a", ""⟩], name2rdn := [1],
+    reg2rdn := [1], lastTempNum := 0, lrefs := [⟨some 4, some 0, none, none⟩] }
+
+def s0 : State := { heap := heap0, next := 6, func := func0 }
+
+/-- what the optimizer might do: a new temp, a new instruction using it, a relinked list without
+the old `add`, the copy of `bt` rewritten, a freed instruction -/
+def edits0 : List Edit :=
+  [.newTemp "i64", .setInsn 12 ⟨.other, "mov", [.reg 2, .reg 1], some 6⟩,
+   .setList [6, 12, 8, 9, 10, 11], .setInsn 8 ⟨.branch, "bf", [.lab (some 10), .reg 2], none⟩,
+   .free 7, .setLref 0 (some 10) none]
+
+theorem label0 : isLabelAt heap0 0 := ⟨_, rfl, rfl⟩
+theorem label4 : isLabelAt heap0 4 := ⟨_, rfl, rfl⟩
+
+theorem wf0 : WF s0 := by
+  constructor
+  · decide
+  · intro i hi
+    simp [s0, func0] at hi
+    rcases hi with rfl | rfl | rfl | rfl | rfl | rfl <;> simp [s0, heap0]
+  · intro i hi insn h0 hk
+    simp [s0, func0] at hi
+    rcases hi with rfl | rfl | rfl | rfl | rfl | rfl <;> simp [s0, heap0] at h0 <;> subst h0 <;>
+      first | rfl | cases hk
+  · intro i hi insn h0 n p hop
+    simp [s0, func0] at hi
+    rcases hi with rfl | rfl | rfl | rfl | rfl | rfl <;> simp [s0, heap0] at h0 <;> subst h0
+    all_goals (rcases n with _ | _ | _ | n <;> simp at hop)
+    all_goals
+      (subst hop
+       refine ⟨⟨rfl, by decide, by decide, by decide⟩, _, rfl, by simp [s0, func0], ?_⟩
+       first | exact label0 | exact label4)
+  · intro r hr
+    simp [s0, func0] at hr
+    subst hr
+    exact ⟨⟨4, rfl, by simp [s0, func0], label4⟩, Or.inr ⟨0, rfl, by simp [s0, func0], label0⟩,
+      rfl, rfl⟩
+  · rfl
+  · constructor
+    · intro r hr; simp [s0, func0] at hr; subst hr; simp [s0, func0]
+    · intro r hr; simp [s0, func0] at hr; subst hr; simp [s0, func0]
+    · simp [s0, func0, rdNameAt]
+    · simp [s0, func0, rdRegAt]
+  · intro r hr d hd
+    simp [s0, func0] at hr
+    subst hr
+    simp [s0, func0] at hd
+    subst hd
+    simp [s0, func0]
+
+theorem legal0 : ∀ e ∈ edits0, e.legal s0.next := by
+  intro e he
+  simp [edits0] at he
+  rcases he with rfl | rfl | rfl | rfl | rfl | rfl <;> simp [Edit.legal, s0]
+
+/-- the hypotheses of `dup_closed`, `dup_iso`, `restore_identity`, `restore_wf` are satisfiable -/
+example : print (restore (mutateCopy (duplicate s0) edits0)) = print s0 :=
+  (restore_identity s0 edits0 wf0 legal0).1
+
+example : print (duplicate s0) = print s0 := dup_iso s0 wf0
+
+example : ∀ i ∈ (duplicate s0).func.insns, 6 ≤ i := (dup_closed s0 wf0).2.1
+
+/-- … and of `gen_history`: three `MIR_gen` calls on the example function -/
+def item0 : Item :=
+  { st := s0, addr := 1000, machineCode := none, callAddr := none, thunkTarget := none,
+    published := 0 }
+
+example : (genMany item0 [(edits0, 5000), ([], 6000), (edits0, 7000)]).1.machineCode = some 5000 :=
+  (gen_history item0 wf0 rfl _ (by simp) (by
+    intro c hc e he
+    simp at hc
+    rcases hc with rfl | rfl | rfl
+    · exact legal0 e he
+    · cases he
+    · exact legal0 e he)).2.2.1
+
+/-- the edits really change the working copy (the example is not trivially the identity) -/
+example : (mutateCopy (duplicate s0) edits0).func.insns = [6, 12, 8, 9, 10, 11] := rfl
+
+end Example
+
+end MirVerif.DupRestore
